@@ -124,7 +124,7 @@ def gen_raw_cases(ctx):
             cnt += 1
         exh.append("all %d sequences of %d merges over all %d endpoint pairs on %d trees (every prefix checked)" % (cnt, L, len(pairs), n))
     # exhaustive over unordered pairs of distinct trees on more trees
-    plan2 = [(4, 3), (5, 3)] + ([(4, 4), (5, 4), (6, 3)] if thorough else [])
+    plan2 = [(4, 3), (5, 2)] + ([(5, 3), (4, 4), (5, 4), (6, 3)] if thorough else [])
     for n, L in plan2:
         pairs = [(a, b) for a in range(n) for b in range(a + 1, n)]
         if n == 6:
@@ -136,7 +136,7 @@ def gen_raw_cases(ctx):
         exh.append("all %d sequences of %d merges of distinct trees on %d trees" % (cnt, L, n))
     nexh = len(cases)
     # random, larger
-    for rep in range(150 if not thorough else 1500):
+    for rep in range(150 if not thorough else 800):
         n = rng.choice([2, 3, 5, 8, 13, 30, 60, 120, 300]) if rep % 3 else rng.randrange(1, 40)
         L = rng.randrange(0, 2 * n + 2)
         ms = []
@@ -165,7 +165,7 @@ def gen_raw_cases(ctx):
             cases.append({"op": "F", "nr": nr, "rownnz": rn, "rowadr": ra, "colind": ci})
             cnt += 1
         fexh.append("all %d undirected graphs on %d vertices" % (cnt, nr))
-    for rep in range(150 if not thorough else 1500):
+    for rep in range(150 if not thorough else 800):
         nr = rng.choice([1, 2, 3, 6, 10, 25, 60, 150])
         ne = rng.randrange(0, max(1, int(nr * rng.choice([0.3, 0.7, 1.2]))) + 1)
         edges = [(rng.randrange(nr), rng.randrange(nr)) for _ in range(ne)]
@@ -259,11 +259,11 @@ def gen_model_cases(ctx):
     thorough = ctx.tier == "thorough"
     cases = []
     ALL = 0x7FFFF
-    for rep in range(14 if not thorough else 150):
+    for rep in range(14 if not thorough else 80):
         feat = ALL if rep % 3 == 0 else (rng.getrandbits(19) | (1 << 15) | (1 << 3) | (1 << 0))   # multitree, contact, free
         cases.append({"op": "G", "seed": rng.randrange(1, 10 ** 6), "feat": feat, "nbody": rng.choice([2, 5, 10, 20, 30]),
                       "jac": int(rng.random() < 0.8), "steps": rng.choice([0, 0, 3])})
-    for rep in range(22 if not thorough else 250):
+    for rep in range(22 if not thorough else 120):
         cases.append({"op": "P", "seed": rng.randrange(1, 10 ** 6), "nbody": rng.choice([1, 2, 3, 5, 8, 12, 20, 35, 60]),
                       "jac": int(rng.random() < 0.8), "steps": rng.choice([0, 0, 0, 2])})
     return cases
@@ -403,16 +403,24 @@ def check_models(ctx, exe, cases):
         lines.extend(got[:len(cases) - start])
         if rc == 0 and len(got) >= len(cases) - start:
             break
-        k = start + len(got)
+        # the driver prints "X crash <phase>" from its signal handler before dying
+        if got and got[-1].startswith("X crash"):
+            k = start + len(got) - 1
+            where = got[-1].split()[-1]
+        else:
+            k = start + len(got)
+            where = "unknown"
+            lines.append("X crash unknown")
         if k >= len(cases):
             break
         crashes += 1
-        if crashes <= 3:
-            ctx.violation("impl_violation", cases[k], expected="mj_forward/mj_island returns and all island arrays are in range",
-                          observed="driver c17_island died with rc=%s on this model (%s)" % (rc, err[-200:]),
+        if where == "compile":
+            ctx.cov["support"].setdefault("compile_crashes_not_attributed_to_islands", []).append(cases[k])
+        elif crashes <= 3:
+            ctx.violation("impl_violation", cases[k], expected="mj_step/mj_forward (with mj_island) returns and all island arrays are in range",
+                          observed="driver c17_island died with rc=%s in phase %s on this model (%s)" % (rc, where, err[-200:]),
                           signature={"site": "mj_island", "crash": True}, theorem="C17_maps",
-                          note="island discovery crashed: index maps / address arrays out of range")
-        lines.append("X crash")
+                          note="the simulation step containing island discovery crashed: index maps / address arrays out of range")
         start = k + 1
         if crashes > 20:
             ctx.broken.append(("correspondence", "driver c17_island keeps crashing", "rc=%s %s" % (rc, err[-300:])))
